@@ -4,8 +4,6 @@ Open Scope Z_scope.
 
 (* the law of a codec: decoding an encoding gives the value back and leaves the rest, and
    the encoding is never taken for a null by Option<T>::decode *)
-Definition not_null (e r : list Z) : Prop :=
-  exists t, d_datatype (e ++ r) = DOk t /\ ctype_eqb t TNull = false.
 Definition codec_ok (c : codec) : Prop :=
   forall v r, c_ty c v ->
     c_dec c (c_enc c v ++ r) = DOk (v, r) /\ not_null (c_enc c v) r /\ c_enc c v <> [].
@@ -86,4 +84,59 @@ Proof.
     by (apply min_width_fits; pose proof (len_nonneg l); unfold u64_max1 in Hlen; lia).
   split; [apply head_not_null; [exact Hfit|cbn; lia]|].
   intros E. apply app_eq_nil in E as [E _]. exact (enc_head_nonempty _ _ _ E).
+Qed.
+
+(* String *)
+Lemma d_str_enc w b r :
+  arg_fits w (len b) -> bytes_wf b -> utf8_valid b = true ->
+  d_str (enc_head MajText w (len b) ++ b ++ r) = DOk (b, r).
+Proof.
+  intros Hfit Hb Hu.
+  pose proof (expect_arg_enc (major_eqb MajText) MajText w (len b) (b ++ r) (major_eqb_refl _) Hfit) as He.
+  pose proof (dec_head_enc MajText w (len b) (b ++ r) Hfit) as Hd.
+  destruct (enc_head_first MajText w (len b) Hfit) as (b0 & t & E & Hb0).
+  rewrite E in *. cbn [app] in *. unfold d_str.
+  unfold dec_head in Hd. destruct (byteb b0) eqn:Hbb; cbn [negb] in *; [|discriminate].
+  assert (Hm : major_of_code (b0 / 32) = MajText /\ (b0 mod 32 =? 31) = false).
+  { destruct (b0 mod 32 <? 24) eqn:E1; [inversion Hd; split; [reflexivity|lia]|].
+    destruct (b0 mod 32 =? 31) eqn:E2; [inversion Hd|].
+    destruct (width_of_info (b0 mod 32)); [|discriminate].
+    apply dbind_ok in Hd as ([a r'] & _ & Hd). inversion Hd; auto. }
+  destruct Hm as [Hm H31]. rewrite Hm, H31, major_eqb_refl. cbn [negb andb]. rewrite He. cbn [dbind].
+  rewrite (take_app b r Hb). cbn [dbind]. rewrite Hu. reflexivity.
+Qed.
+
+Lemma c_text_ok : codec_ok c_text.
+Proof.
+  intros v r (b & -> & Hb & Hu & Hl). cbn [c_dec c_enc c_text enc_text]. unfold e_str, enc_head_min, u64_max1 in *.
+  assert (Hfit : arg_fits (min_width (len b)) (len b)) by (apply min_width_fits; pose proof (len_nonneg b); lia).
+  rewrite <- app_assoc, d_str_enc by assumption. cbn [dmap fst snd].
+  split; [reflexivity|]. split; [apply head_not_null; [exact Hfit|cbn; lia]|].
+  intros E. apply app_eq_nil in E as [E _]. exact (enc_head_nonempty _ _ _ E).
+Qed.
+
+(* #[cbor(tag(t))] *)
+Lemma c_tag_ok t c : 0 <= t < u64_max1 -> codec_ok c -> codec_ok (c_tag t c).
+Proof.
+  intros Ht Hc v r Hty. cbn [c_dec c_enc c_ty c_tag] in *. unfold e_tag, enc_head_min, u64_max1 in *.
+  assert (Hfit : arg_fits (min_width t) t) by (apply min_width_fits; lia).
+  rewrite <- app_assoc, d_tag_enc by exact Hfit. cbn [dbind]. rewrite Z.eqb_refl.
+  destruct (Hc v r Hty) as (Hd & _ & _). split; [exact Hd|].
+  split; [apply head_not_null; [exact Hfit|cbn; lia]|].
+  intros E. apply app_eq_nil in E as [E _]. exact (enc_head_nonempty _ _ _ E).
+Qed.
+
+(* opaque leaf *)
+Lemma consumed_app p r : consumed (p ++ r) r = p.
+Proof.
+  unfold consumed. rewrite app_length.
+  replace (length p + length r - length r)%nat with (length p) by lia.
+  rewrite firstn_app, Nat.sub_diag, firstn_all. cbn [firstn]. apply app_nil_r.
+Qed.
+
+Lemma c_raw_ok : codec_ok c_raw.
+Proof.
+  intros v r (i & -> & Hwf & Hnn). cbn [c_dec c_enc c_raw enc_raw].
+  rewrite decode_complete by exact Hwf. cbn [dbind]. rewrite consumed_app.
+  split; [reflexivity|]. split; [apply Hnn|apply encode_item_nonempty, Hwf].
 Qed.
